@@ -190,6 +190,23 @@ fn run_fn<'a>(name: &'static str, args: FunctionArgs<'_, 'a>) -> Option<LhsValue
     }
     // ExactSizeIterator contract: the announced length is the real one
     assert_eq!(declared, v.len(), "FunctionArgs::len() disagrees with the number of arguments yielded");
+    // every argument (value or typed absence) has the declared parameter type
+    if let Some(s) = sig(name) {
+        assert_eq!(v.len(), s.params.len() + s.opts.len(), "{name} invoked with {} arguments", v.len());
+        for (i, a) in v.iter().enumerate() {
+            let want = if i < s.params.len() { s.params[i].1.clone() } else { s.opts[i - s.params.len()].1.ty() };
+            let got = match a {
+                Ok(x) => x.ty(),
+                Err(t) => t.clone(),
+            };
+            assert!(
+                got == want,
+                "{name} received argument #{i} of type {} where its parameter is declared {}",
+                got.show(),
+                want.show()
+            );
+        }
+    }
     CALL_LOG.with(|l| {
         if let Some(log) = l.borrow_mut().as_mut() {
             log.push(CallRec { name: name.to_string(), args: v.clone() });
